@@ -378,7 +378,8 @@ impl<
         // could still return an ambiguous offset).
         if this_index == starts.len() - 1 {
             if let Some(tz) = self.posix_tz() {
-                return tz.to_ambiguous_kind(dt);
+                let amb = tz.to_ambiguous_kind(dt);
+                return self.reconcile_with_last_transition(dt, amb);
             }
             // This case is unspecified according to RFC 8536. It means that
             // the given datetime exceeds all transitions *and* there is no
@@ -391,6 +392,47 @@ impl<
         }
         AmbiguousOffset::Unambiguous {
             offset: Offset::from_seconds_unchecked(this_offset),
+        }
+    }
+
+    /// Reconciles an ambiguity reported by the POSIX TZ rule with the TZif
+    /// transitions.
+    ///
+    /// The POSIX TZ rule only applies after the last transition. When it
+    /// reports a gap or a fold for a civil datetime close to the last
+    /// transition, one of the two candidate instants can precede the last
+    /// transition, where the TZif data and not the rule says which offset is
+    /// in effect. (This happens when the rule has a transition at or before
+    /// the last TZif transition that the TZif data does not have, e.g., when
+    /// `zic` emits a final no-op transition to anchor the TZ string.) In that
+    /// case, decide by asking which of the two offsets are actually in effect
+    /// at their candidate instants.
+    fn reconcile_with_last_transition(
+        &self,
+        dt: DateTime,
+        amb: AmbiguousOffset,
+    ) -> AmbiguousOffset {
+        let (before, after) = match amb {
+            AmbiguousOffset::Unambiguous { .. } => return amb,
+            AmbiguousOffset::Gap { before, after }
+            | AmbiguousOffset::Fold { before, after } => (before, after),
+        };
+        let (Ok(ts_before), Ok(ts_after)) =
+            (before.to_timestamp(dt), after.to_timestamp(dt))
+        else {
+            return amb;
+        };
+        let last = *self.timestamps().last().expect("non-empty transitions");
+        if ts_before.as_second() > last && ts_after.as_second() > last {
+            return amb;
+        }
+        let before_ok = self.to_offset(ts_before) == before;
+        let after_ok = self.to_offset(ts_after) == after;
+        match (before_ok, after_ok) {
+            (true, true) => AmbiguousOffset::Fold { before, after },
+            (true, false) => AmbiguousOffset::Unambiguous { offset: before },
+            (false, true) => AmbiguousOffset::Unambiguous { offset: after },
+            (false, false) => AmbiguousOffset::Gap { before, after },
         }
     }
 
